@@ -163,18 +163,24 @@ WbWhy(e) == LET w == WbFold(e.wb, 1, mods, n) IN
 
 First(a, b2) == IF a # "" THEN a ELSE b2
 
+(* named deviation (open known finding): the optimisation loop assumes non-negative cost      *)
+(* coefficients; an OPB objective with a negative coefficient gives wrong optima, panics or   *)
+(* does not terminate                                                                         *)
+KFNegObj == Case.hasObj /\ \E i \in 1..Len(Case.obj.w) : Case.obj.w[i] < 0
+TagNeg(w) == IF w # "" /\ KFNegObj THEN "kf:negative-cost-coefficient:" \o w ELSE w
+
 Why == CASE Ev.op = "solve"    -> First(SolveWhy(Ev), WbWhy(Ev))
          [] Ev.op = "append"   -> ""
          [] Ev.op = "assume"   -> AssumeWhy(Ev)
          [] Ev.op = "count"    -> First(CountWhy(Ev), WbWhy(Ev))
          [] Ev.op = "enum"     -> First(EnumWhy(Ev), WbWhy(Ev))
-         [] Ev.op = "optimal"  -> First(OptimalWhy(Ev), WbWhy(Ev))
-         [] Ev.op = "minimize" -> First(MinimizeWhy(Ev), WbWhy(Ev))
+         [] Ev.op = "optimal"  -> First(TagNeg(OptimalWhy(Ev)), WbWhy(Ev))
+         [] Ev.op = "minimize" -> First(TagNeg(MinimizeWhy(Ev)), WbWhy(Ev))
          [] Ev.op = "amo"      -> AmoWhy(Ev)
          [] Ev.op = "dump"     -> DumpWhy(Ev)
          [] Ev.op = "skip"     -> ""     \* the driver refused the case: outside the precondition
-         [] Ev.op = "crash"    -> "crash"
-         [] Ev.op = "timeout"  -> "timeout"
+         [] Ev.op = "crash"    -> TagNeg("crash")
+         [] Ev.op = "timeout"  -> TagNeg("timeout")
          [] OTHER              -> "unknown-event"
 
 (* ---- state update of each call ------------------------------------------ *)
